@@ -6,6 +6,7 @@ func init() {
 	vpRegister("VPH_C10_squash", VPH_C10_squash)
 	vpRegister("VPH_C10_body", VPH_C10_body)
 	vpRegister("VPH_C10_connection", VPH_C10_connection)
+	vpRegister("VPH_C10_after_update", VPH_C10_after_update)
 }
 
 // vpCaseWord returns w with the case of every letter chosen symbolically.
@@ -242,5 +243,65 @@ func VPH_C10_connection() {
 			vpReach("mkdir-done")
 			vpAssert(seen, "new-directory-given-the-callers-identity")
 		}
+	}
+}
+
+// VPH_C10_after_update: the squash mode chosen at construction still governs after the options
+// were updated at run time in any of the accepted ways (the mode itself cannot be changed): one
+// AUTH_SYS MKDIR through the real connection loop, observed through the identity the backend is told.
+func VPH_C10_after_update() {
+	fs := vpStdTree()
+	fs.addAbsent("/d/n1")
+	all := vpBool("mode-all")
+	mode := "root"
+	if all {
+		mode = "all"
+	}
+	env := vpServer(fs, ExportOptions{Squash: mode})
+	hd := env.handleFor("/d")
+	env.srv.options.UseRecordMarking = true
+	var err error
+	switch vpChoose("update", 0, 4) {
+	case 1: // options written from scratch, the mode left out
+		err = env.nfs.UpdateExportOptions(ExportOptions{AttrCacheSize: 50})
+		vpReach("update-from-scratch")
+	case 2: // read-modify-write of the snapshot
+		o := env.nfs.GetExportOptions()
+		o.AttrCacheSize = 50
+		err = env.nfs.UpdateExportOptions(o)
+		vpReach("update-of-snapshot")
+	case 3: // the policy alone, copied from the one in force
+		p := *env.nfs.policy.Load()
+		p.MaxFileSize = 1 << 30
+		err = env.nfs.UpdatePolicyOptions(p)
+		vpReach("policy-update")
+	case 4: // the mode restated
+		err = env.nfs.UpdateExportOptions(ExportOptions{Squash: mode})
+		vpReach("mode-restated")
+	}
+	vpAssert(err == nil, "update-accepted")
+	uid, gid := vpU32("uid"), vpU32("gid")
+	var b vpBuf
+	b.u32(100).u32(RPC_CALL).u32(2).u32(NFS_PROGRAM).u32(NFS_V3).u32(NFSPROC3_MKDIR)
+	b.u32(AUTH_SYS).opaque(vpAuthSysBody(7, "h", uid, gid, nil)).u32(AUTH_NONE).u32(0)
+	b.fh(hd).str("n1").sattr(&vpSattr{})
+	conn := &vpConn{in: vpFrame(b.Bytes()), remote: "10.0.0.5:800"}
+	env.fs.log = nil
+	env.srv.handleConnectionWithRecordMarking(conn, env.h)
+	wantUID := vpIteU32(uid == 0, 65534, uid)
+	wantGID := vpIteU32(vpOr(uid == 0, gid == 0), 65534, gid)
+	if all {
+		wantUID, wantGID = 65534, 65534
+	}
+	seen := false
+	for _, c := range env.fs.log {
+		if (c.op == "Chown" || c.op == "Lchown") && c.path == "/d/n1" {
+			seen = true
+			vpAssert(vpAnd(uint32(c.a) == wantUID, uint32(c.b) == wantGID), "mode-of-construction-still-governs")
+		}
+	}
+	if fs.lookup("/d/n1") != nil {
+		vpReach("mkdir-done")
+		vpAssert(seen, "new-directory-given-the-squashed-identity")
 	}
 }
